@@ -69,14 +69,16 @@ Record port := {
   p_sel : option nat;             (* "default depends": index of the selector port *)
   p_table : list (Z * value);     (* "default N" entries *)
   p_hard : list nat;              (* toggles whose pointer sub-trees contain the port *)
-  p_soft : list nat               (* further toggles the walk asks ("enabled by" on embedded sub-trees) *)
+  p_soft : list nat;              (* further toggles the walk asks ("enabled by" on embedded sub-trees) *)
+  p_nodef : bool;                 (* no "default" at all: get_default_value gives -1, the port is never saved *)
+  p_init : value                  (* what a new instance holds then *)
 }.
 Definition app := list port.
 Definition state := list value.   (* per port, in the order of the application *)
 
 Definition dummy_port : port :=
   {| p_path := []; p_kind := KI; p_array := false; p_len := 1%nat; p_min := None; p_max := None;
-     p_opts := []; p_default := []; p_sel := None; p_table := []; p_hard := []; p_soft := [] |}.
+     p_opts := []; p_default := []; p_sel := None; p_table := []; p_hard := []; p_soft := []; p_nodef := false; p_init := [] |}.
 Definition port_at (a : app) (i : nat) : port := nth i a dummy_port.
 Definition val_at (st : state) (i : nat) : value := nth i st [].
 
@@ -154,7 +156,8 @@ Definition default_of (a : app) (st : state) (i : nat) : value :=
 (* a default-initialised instance: the selector holds its own plain default *)
 Definition initial_of (a : app) (i : nat) : value :=
   let p := port_at a i in
-  default_with p (omap (fun s => p_default (port_at a s)) (p_sel p)).
+  if p_nodef p then p_init p
+  else default_with p (omap (fun s => p_default (port_at a s)) (p_sel p)).
 Definition initial (a : app) : state := map (initial_of a) (seq 0 (length a)).
 
 (* ---- which ports exist / are reached by the walk ------------------------- *)
@@ -260,7 +263,7 @@ Definition line_of (a : app) (st : state) (i : nat) : list line :=
   let p := port_at a i in
   let cur := val_at st i in
   let dfl := default_of a st i in
-  if live a st i && negb (same_value cur dfl) then
+  if negb (p_nodef p) && live a st i && negb (same_value cur dfl) then
     [{| l_path := p_path p; l_array := p_array p;
         (* map_arg_vals comes first: an element shown by its symbol never
            compares equal to the (numeric) default *)
